@@ -66,7 +66,13 @@ func LiftThroughCalls(pred InstrPred, depth int) InstrPred {
 			}
 			return false
 		}
-		_, ok := MustReachAfter(fn, nil, inner, nil)
+		// a wrapper that reports failure is not required to have done the effect on its failing paths (its caller
+		// sees the error): only the paths that can return a nil error count
+		var exit func(ssa.Instruction) bool
+		if res := fn.Signature.Results(); res.Len() > 0 && isErrorType(res.At(res.Len()-1).Type()) {
+			exit = func(in ssa.Instruction) bool { return ReturnsNilError(in) }
+		}
+		_, ok := MustReachAfter(fn, nil, inner, exit)
 		if ok {
 			memo[fn] = 1
 		} else {
